@@ -81,6 +81,8 @@ class Ctl:
         self.rng = rng
         self.choose = choose  # optional list of pre-recorded release choices (replay)
         self.choices = []  # release choices actually made (list of lists of ids)
+        self.first_choices = []  # choices made at FIRST_COMPLETED waits only (what `choose` replays)
+        self.first_options = []  # the in-flight ids that were available at each of them
         self.simultaneous = simultaneous
         self.free_run = free_run  # no gating: nodes run through (used by value-level cases)
         self.cfgs = []  # one configuration dict per async_execute call
@@ -141,6 +143,9 @@ class Ctl:
             k = 1 if self.rng.random() >= self.simultaneous else self.rng.randint(1, len(ids))
             rel = self.rng.sample(ids, k)
         self.choices.append(list(rel))
+        if mode != H.ALL_COMPLETED:
+            self.first_choices.append(list(rel))
+            self.first_options.append(list(ids))
         return rel
 
 
@@ -393,6 +398,7 @@ if not MISSING:
             seq={i: bool(xns[i].is_sequential) for i in nodes if i in xns},
             res={i: xns[i].resource.value for i in nodes if i in xns},
             active={i: (xns[i].active.id, list(xns[i].active.key)) for i in nodes if i in xns and xns[i].active is not None},
+            refs={i: [(u.id, list(u.key)) for u in list(xns[i].args) + [u for k, u in xns[i].kwargs.items() if k not in ("twz_tag", "twz_active", "twz_unpack_to")]] for i in nodes if i in xns},
             setup={i: bool(xns[i].setup) for i in nodes if i in xns},
             debug={i: bool(xns[i].debug) for i in nodes if i in xns},
             missing_xn=[i for i in nodes if i not in xns],
